@@ -183,6 +183,8 @@ def gen_call(r, spec, uid):
         call['source'] = ''
         if 'position' in call:
             call['position'] = [1, 0]
+    if q['file'] == 'zqmain.py' and r.random() < 0.25:
+        call['common_file'] = True
     if q['kind'] == 'lint' and r.random() < 0.15:
         call['syntax_only'] = True
     if q['kind'] == 'lint' and r.random() < 0.1:
@@ -220,6 +222,13 @@ def gen_case(seed, i, mode='main'):
         if r.random() < 0.08:
             calls.append(gen_configure(r, enabled, last_conf))
             last_conf = calls[-1]
+            continue
+        earlier = [c for c in calls if c['op'] in ('assist', 'location', 'lint') and not c.get('fault')]
+        if earlier and r.random() < (0.5 if calls[-1]['op'] == 'configure' else 0.06):
+            # the very same request again (an editor re-lints an untouched buffer; after a reconfigure the answer
+            # may have to be another one)
+            same = [c for c in earlier if c.get('common_file')] or earlier
+            calls.append(dict(r.choice(same[-3:])))
             continue
         calls.append(gen_call(r, spec, uid))
     think_on = r.random() < 0.6
@@ -261,6 +270,40 @@ def gen_exhaustive_case(seed, i):
             'sched': {'kind': 'default'}}
 
 
+def gen_reconf_case(seed, i):
+    """Sessions that switch between two configurations and send the very same requests under each: whatever the
+    server remembers about a request must not outlive the project it was computed for."""
+    r = prng.rng('c15', seed, 'reconf', i)
+    spec = G.gen_project(r)
+    spec_b = {'modules': list(spec['modules'])}
+    for mi in range(len(spec_b['modules'])):
+        spec_b['modules'][mi] = G.mutate_module(r, spec_b, mi)
+    reqs = []
+    for j in range(r.choice((1, 2, 3))):
+        c = gen_call(r, spec, 'r%d_%d' % (i % 1000, j))
+        if c['op'] in ('assist', 'location', 'lint'):
+            if c['file'] == 'zqmain.py':
+                c['common_file'] = True
+            c.pop('pad', None)
+            reqs.append(c)
+    # a buffer that uses names of version 1 of a module: complete under configuration a, undefined names under b
+    m = r.choice([m for m in spec['modules'] if not m.get('init')])
+    names = [it[1] for it in m['items'] if it[0] == 'assign'][:2]
+    reqs.append({'op': 'lint', 'source': 'from %s import *\nprint(%s)\n' % (m['name'], ', '.join(names) or '1'),
+                 'file': 'zqmain.py', 'common_file': True})
+    calls = []
+    variant = r.choice('ab')
+    for _ in range(r.choice((2, 3, 4))):
+        calls.append({'op': 'configure', 'variant': variant, 'dyn': r.choice((None, None, ['json'], []))})
+        k = r.sample(reqs, r.randrange(1, len(reqs) + 1))
+        calls.extend(dict(c) for c in k)
+        if r.random() < 0.3:
+            calls.extend(dict(c) for c in k[:1])
+        variant = 'b' if variant == 'a' else ('a' if r.random() < 0.8 else 'b')
+    return {'spec': spec, 'spec_b': spec_b, 'calls': calls, 'thinks': [0] * len(calls), 'launch_delay': 0.0,
+            'sched': {'kind': 'default'}, 'idhash_seed': r.getrandbits(32)}
+
+
 def plan(tier, seed, scale=1.0):
     n = int((4000 if tier == 'quick' else 190000) * scale)
     nx = int((1200 if tier == 'quick' else 70000) * scale)
@@ -270,12 +313,16 @@ def plan(tier, seed, scale=1.0):
         units.append({'kind': 'runs', 'mode': 'main', 'seed': seed, 'first': i, 'count': min(per, n - i)})
     for i in range(0, nx, per):
         units.append({'kind': 'runs', 'mode': 'exh', 'seed': seed, 'first': i, 'count': min(per, nx - i)})
+    nr = int((400 if tier == 'quick' else 20000) * scale)
+    for i in range(0, nr, per):
+        units.append({'kind': 'runs', 'mode': 'reconf', 'seed': seed, 'first': i, 'count': min(per, nr - i)})
     return units
 
 
 def selftest_units(tier, seed):
     return ([{'kind': 'runs', 'mode': 'main', 'seed': seed, 'first': i, 'count': 1} for i in range(24)] +
-            [{'kind': 'runs', 'mode': 'exh', 'seed': seed, 'first': i, 'count': 1} for i in range(8)])
+            [{'kind': 'runs', 'mode': 'exh', 'seed': seed, 'first': i, 'count': 1} for i in range(8)] +
+            [{'kind': 'runs', 'mode': 'reconf', 'seed': seed, 'first': i, 'count': 1} for i in range(6)])
 
 
 # ---------------------------------------------------------------- one simulated session
@@ -362,7 +409,7 @@ class Session(object):
                     return 'ok', ctx['result']
                 return 'ok', call.get('expect')
             p = self.ref_project
-            fn = os.path.join(self.src_root(), call['file'])
+            fn = self.filename(call)
             src = full_source(call)
             with p.check_changes():
                 if op == 'assist':
@@ -389,7 +436,7 @@ class Session(object):
         if op not in ('assist', 'location', 'lint') or self.iso_project is None:
             return None
         p = self.iso_project
-        fn = os.path.join(self.src_root(), call['file'])
+        fn = self.filename(call)
         src = full_source(call)
         try:
             with p.check_changes():
@@ -400,6 +447,12 @@ class Session(object):
                 return 'ok', [r[:4] for r in linter.lint(p, src, fn)]
         except Exception as e:
             return 'exc', e
+
+    def filename(self, call):
+        if call.get('common_file'):
+            # a buffer that does not live under the configured root (scratch buffer, file of another checkout)
+            return os.path.join(self.root, 'zqscratch.py')
+        return os.path.join(self.src_root(), call['file'])
 
     def src_root(self, call=None):
         v = call.get('variant', 'a') if call is not None else self.cur
@@ -416,7 +469,7 @@ class Session(object):
         if op == 'raw':
             args = list(call['args'])
             return env._call(call['name'], *args)
-        fn = os.path.join(self.src_root(), call['file'])
+        fn = self.filename(call)
         src = full_source(call)
         if op == 'assist':
             return env.assist(src, full_position(call), fn)
@@ -601,6 +654,8 @@ def run_case(case, keep_events=0):
 def case_of(unit, i):
     if unit['mode'] == 'exh':
         return gen_exhaustive_case(unit['seed'], i)
+    if unit['mode'] == 'reconf':
+        return gen_reconf_case(unit['seed'], i)
     return gen_case(unit['seed'], i, unit['mode'])
 
 
